@@ -13,7 +13,7 @@ from vf.intercept import Intercept
 ID = "C04"
 TITLE = "Each time level is the implicit backward-Euler update of the previous one"
 LEVEL = "fault_enumeration"
-BUDGET = {"quick": 4000, "thorough": 60000}
+BUDGET = {"quick": 4000, "thorough": 400000}
 SHRINK = {"quick": False, "thorough": True}
 TIME_LIMIT = {"quick": 150, "thorough": 3300}
 RULE = (
